@@ -1038,6 +1038,111 @@ class DiagramRule(FileRule, BaseModuleSpecifier, RuleApplier):
         MultipleRuleApplier(self._rules).assert_applies(evaluable)
 """}, expect="C07.R3")
 
+# ---------------------------------------------------------------------------------------------- sixth batch: keyed message stores
+def _mra(body: str) -> dict:
+    return {MUL: MUL_HEAD + "import collections\n\n\nclass MultipleRuleApplier(RuleApplier):\n    def __init__(self, rule_appliers: list[RuleApplier]) -> None:\n        self._rule_appliers = rule_appliers\n" + body}
+
+
+variant("mra-dict-by-index", _mra("""
+    def assert_applies(self, evaluable: EvaluableArchitecture) -> None:
+        failures: dict[int, str] = {}
+        for position, rule_applier in enumerate(self._rule_appliers):
+            try:
+                rule_applier.assert_applies(evaluable)
+            except AssertionError as e:
+                failures[position] = e.args[0]
+        if failures:
+            raise AssertionError("\\n".join(failures.values()))
+"""))
+
+variant("mra-ordereddict-items", _mra("""
+    def assert_applies(self, evaluable: EvaluableArchitecture) -> None:
+        failures = collections.OrderedDict()
+        for position, rule_applier in enumerate(self._rule_appliers):
+            try:
+                rule_applier.assert_applies(evaluable)
+            except AssertionError as e:
+                failures[(position, rule_applier)] = e.args[0]
+        lines = [message for _key, message in failures.items()]
+        if lines:
+            raise AssertionError("\\n".join(lines))
+"""))
+
+variant("mra-dict-of-lists-setdefault", _mra("""
+    def assert_applies(self, evaluable: EvaluableArchitecture) -> None:
+        by_subject: dict = {}
+        for rule_applier in self._rule_appliers:
+            try:
+                rule_applier.assert_applies(evaluable)
+            except AssertionError as e:
+                by_subject.setdefault(self._group_of(rule_applier), []).append(e.args[0])
+        error_messages = [message for messages in by_subject.values() for message in messages]
+        if error_messages:
+            raise AssertionError("\\n".join(error_messages))
+
+    @staticmethod
+    def _group_of(rule_applier):
+        return getattr(rule_applier, "rule_subjects", None) or id(rule_applier)
+"""))
+
+variant("mra-defaultdict-lists", _mra("""
+    def assert_applies(self, evaluable: EvaluableArchitecture) -> None:
+        grouped = collections.defaultdict(list)
+        for rule_applier in self._rule_appliers:
+            try:
+                rule_applier.assert_applies(evaluable)
+            except AssertionError as e:
+                grouped[type(rule_applier).__name__].append(e.args[0])
+        if grouped:
+            raise AssertionError("\\n".join(m for ms in grouped.values() for m in ms))
+"""))
+
+variant("mra-BREAK-dict-by-subject", _mra("""
+    def assert_applies(self, evaluable: EvaluableArchitecture) -> None:
+        error_messages: dict = {}
+        for position, rule_applier in enumerate(self._rule_appliers):
+            try:
+                rule_applier.assert_applies(evaluable)
+            except AssertionError as e:
+                error_messages[self._group_of(rule_applier, position)] = e.args[0]
+        if error_messages:
+            raise AssertionError("\\n".join(error_messages.values()))
+
+    @classmethod
+    def _group_of(cls, rule_applier, position):
+        rule_subjects = getattr(rule_applier, "rule_subjects", None)
+        if not rule_subjects:
+            return position
+        return tuple(sorted(subject.identifier for subject in rule_subjects))
+"""), expect="C07.R2")
+
+variant("mra-BREAK-items-loop-by-subject", _mra("""
+    def assert_applies(self, evaluable: EvaluableArchitecture) -> None:
+        latest: dict = {}
+        for rule_applier in self._rule_appliers:
+            try:
+                rule_applier.assert_applies(evaluable)
+            except AssertionError as e:
+                latest[str(rule_applier.subject)] = e.args[0]
+        lines = []
+        for _subject, message in latest.items():
+            lines.append(message)
+        if lines:
+            raise AssertionError("\\n".join(lines))
+"""), expect="C07.R2")
+
+variant("mra-BREAK-dedup-by-rule-type", _mra("""
+    def assert_applies(self, evaluable: EvaluableArchitecture) -> None:
+        grouped = collections.defaultdict(list)
+        for rule_applier in self._rule_appliers:
+            try:
+                rule_applier.assert_applies(evaluable)
+            except AssertionError as e:
+                grouped[rule_applier.kind].append(e.args[0])
+        if grouped:
+            raise AssertionError("\\n".join(ms[0] for ms in grouped.values()))
+"""), expect="C07.R2")
+
 def main() -> int:
     here = Path(__file__).resolve().parents[1]
     sys.path.insert(0, str(here))
